@@ -3,6 +3,7 @@ import os, re, math
 from lib import Case, hx, enc_attrs, doc_case, unhx
 import xmlcanon
 
+DOC_MODEL = True     # every generated document also runs through the composed Coq model of the whole transform
 RULE = ('(a) documents in svgdx mode (root <svg> without namespace, or fragments) built from the SVG 1.1 vocabulary (shapes, text / '
         'tspan, g, defs, gradients, markers, filters, clipPath, use with href / xlink:href, image, a, foreignObject, style, title / desc) '
         'with values drawn from the SVG number / length / percentage / path / points / transform grammars (signs, fractions, exponents, '
@@ -341,6 +342,10 @@ def run(ctx):
         if b is None:
             continue
         st['traces_validated_against_impl'] += 1
+        if c.kind == 'elbbox' and a and b and a[0] == 'OK' and b[0] == 'OK':
+            # the sign of a zero coming out of f32::min / f32::max is unspecified (minss / maxss operand order): -0 and +0 are one box
+            z = lambda r: [r[0]] + [','.join('0' if w == '2147483648' else w for w in x.split(',')) for x in r[1:]]
+            a, b = z(a), z(b)
         if a != b:
             yield {'kind': 'correspondence', 'what': 'scanner model and implementation disagree on %s %s' % (unhx(c.fields[0]), c.fields[1][:200]), 'case': c.to_json(), 'observed': a, 'expected': b}
     dist['scanner_strings'] = len(hcases)
